@@ -251,6 +251,11 @@ func (self Value) FieldByName(name string) (v Value) {
 	}
 	for it.HasNext() {
 		i, t, s, e := it.Next(UseNativeSkipForGet)
+		// NOTICE: look at the error first, a failed step reports id 0 - which may be the wanted one
+		if it.Err != nil {
+			v = errValue(meta.ErrRead, "", it.Err)
+			goto ret
+		}
 		if i == f.ID() {
 			if t != f.Type().Type() {
 				v = errValue(meta.ErrDismatchType, fmt.Sprintf("field '%s' expects type %s, buf got type %s", f.Name(), f.Type().Type(), t), nil)
